@@ -20,6 +20,7 @@ CONSTANTS W,            \* workers 0..W-1
           WakeAt,               \* Limit + 1 : guard drop wakes when the old counter value equals this
           IgnoreUnknownIdx,     \* TRUE  : WorkerAvailable(i) for an idx without handle is ignored
           UnlinkOnDeregister,   \* FALSE : deregistering a UDS listener removes its path
+          ResumeClearsBackoff,  \* TRUE  : Resume drops the back-off deadline of the listeners it registers
           IncBeforeSend,        \* FALSE (NEG) counter incremented before the send
           NoClearOnLimit,       \* FALSE (NEG) bit not cleared when the limit is hit
           ResumeSkipsAcceptAll, \* FALSE (NEG)
@@ -312,10 +313,13 @@ APop ==
                       /\ IF paused
                            THEN /\ paused' = FALSE /\ pauseEffective' = FALSE
                                 /\ RegisterSet(Listeners)
+                                \* a listener registered here must not keep a back-off deadline: the next
+                                \* Pause skips listeners with a deadline ("already deregistered")
+                                /\ lstTimer' = (IF ResumeClearsBackoff THEN [l \in Listeners |-> 0] ELSE lstTimer)
                                 /\ IF ResumeSkipsAcceptAll THEN UNCHANGED <<apc, ret, cur, tokLeft>>
                                    ELSE EnterAcceptAll
-                           ELSE UNCHANGED <<paused, pauseEffective, registered, edge, apc, ret, cur, tokLeft>>
-                      /\ UNCHANGED <<avail, handles, running, pathOk, lstTimer>>
+                           ELSE UNCHANGED <<paused, pauseEffective, registered, edge, lstTimer, apc, ret, cur, tokLeft>>
+                      /\ UNCHANGED <<avail, handles, running, pathOk>>
                  [] m[1] = "Stop" ->
                       /\ IF ~paused
                            THEN /\ DeregisterSet({l \in Listeners : lstTimer[l] = 0})
